@@ -295,8 +295,8 @@ def Mgr.lock (m : Mgr) : Mgr :=
   { m with cryptoKeyScript := zeroKey, cryptoKeyPriv := zeroKey, masterKeyPriv := m.masterKeyPriv.zero,
            privPass := none, locked := true }
 
-/-- `Manager.Unlock` (key part; the account-key loop belongs to C05). QUIRK mirrored: `cryptoKeyScript` is never
-restored from `cryptoKeyScriptEncrypted`; it stays the all-zero key. -/
+/-- `Manager.Unlock` (key part; the account-key loop belongs to C05). Since /repo b81a3ff both `cryptoKeyPriv` and
+`cryptoKeyScript` are restored from their encrypted forms with the private master key. -/
 def Mgr.unlock (A : AEAD) (K : KDF) (m : Mgr) (pass : Bytes) : Mgr × Except MgrErr Unit :=
   if m.watchOnly then (m, .error .watchingOnly)
   else if !m.locked then
@@ -309,7 +309,11 @@ def Mgr.unlock (A : AEAD) (K : KDF) (m : Mgr) (pass : Bytes) : Mgr × Except Mgr
       let m1 := { m with masterKeyPriv := sk }
       match sk.decrypt A m.cryptoKeyPrivEncrypted with
       | .error e => (m1.lock, .error (.crypto e))
-      | .ok k => ({ m1 with cryptoKeyPriv := k, locked := false, privPass := some pass }, .ok ())
+      | .ok k =>
+        -- /repo b81a3ff: the script crypto key is restored as well (failure ⇒ lock + ErrCrypto)
+        match sk.decrypt A m.cryptoKeyScriptEncrypted with
+        | .error e => (m1.lock, .error (.crypto e))
+        | .ok ks => ({ m1 with cryptoKeyPriv := k, cryptoKeyScript := ks, locked := false, privPass := some pass }, .ok ())
 
 /-- the randomness `ChangePassphrase` consumes (salt of the new master key, nonces of the re-encryptions). -/
 structure ChangeRand where
@@ -369,11 +373,22 @@ def Mgr.encrypt (A : AEAD) (m : Mgr) (kt : Nat) (nonce inp : Bytes) : Except Mgr
   | .error e => .error e
   | .ok k => .ok (encryptWith A nonce k inp)
 
-/-- `Manager.Decrypt`. -/
+/-- `decryptLegacyScript` (/repo b81a3ff): read-side fallback for rows that earlier versions sealed with the
+all-zero script key; the ORIGINAL error is kept when the zero key does not open the data either. -/
+def decryptLegacyScript (A : AEAD) (inp : Bytes) (origErr : Err) : Except Err Bytes :=
+  match Crypto.decrypt A zeroKey inp with
+  | .error _ => .error origErr
+  | .ok p => .ok p
+
+/-- `Manager.Decrypt`: for CKTScript (= 1) a failure under the script key falls back to `decryptLegacyScript`. -/
 def Mgr.decrypt (A : AEAD) (m : Mgr) (kt : Nat) (inp : Bytes) : Except MgrErr Bytes :=
   match m.selectCryptoKey kt with
   | .error e => .error e
-  | .ok k => match Crypto.decrypt A k inp with
+  | .ok k =>
+    let r := match Crypto.decrypt A k inp with
+      | .error e => if kt == 1 then decryptLegacyScript A inp e else .error e
+      | .ok p => .ok p
+    match r with
     | .error e => .error (.crypto e)
     | .ok p => .ok p
 
@@ -435,8 +450,10 @@ def hash (b : Bytes) : Bytes :=
 
 def kdfI : KDF := { kdf := kdf, hash := hash }
 
-/-- toy key number `i` (driver): 16 LE bytes of `i+1` ‖ 16 zero bytes. -/
-def keyOfId (i : Nat) : Bytes := leBytes 16 (i + 1) ++ List.replicate 16 0
+/-- toy key number `i` (driver): 8 LE bytes of `i+1`, twice, ‖ 16 zero bytes. The repetition keeps distinct toy keys
+at Hamming distance ≥ 2: the toy tag is linear in the key, so with adjacent ids one flipped tag bit would turn a box
+under key `i` into a valid box under key `i+1` — an artefact real secretbox keys (random 256-bit) do not have. -/
+def keyOfId (i : Nat) : Bytes := (leBytes 8 (i + 1) ++ leBytes 8 (i + 1)) ++ List.replicate 16 0
 
 /-- nonce number `i` (driver): 24 LE bytes. -/
 def nonceOfId (i : Nat) : Bytes := leBytes 24 i
